@@ -185,6 +185,8 @@ def build_query(sc, order=True, distinct=True, bound=True):
         q += ' %s B on a2 == b1' % sc['join']
     if sc.get('where'):
         q += ' where ' + sc['where']
+    if sc.get('group_by'):
+        q += ' group by ' + sc['group_by']
     o = sc.get('order') if order else None
     if o:
         q += ' order by ' + ', '.join(sc['items'][c] for c in o['cols'])
@@ -196,7 +198,7 @@ def build_query(sc, order=True, distinct=True, bound=True):
 
 
 def is_buffering(sc):
-    return bool(sc.get('order')) or sc.get('distinct') == 'dc'
+    return bool(sc.get('order')) or sc.get('distinct') == 'dc' or bool(sc.get('group_by'))
 
 
 def model(sc, raw_rows):
@@ -278,6 +280,18 @@ def generate(rng, tier, idx):
         keys = ['v1', 'v2', 'x', 'nokey', 'v1']
         sc['join_rows'] = [[rng.choice(keys), rng.choice(['J1', 'J2', 'J3']), rng.choice(['m', 'n'])] for _ in range(rng.choice([0, 1, 2, 3, 4, 5]))]
     sc['engines'] = ['py', 'js']
+    if rng.random() < 0.12:
+        # aggregate shape: only the bound-prefix clause applies (what the groups contain is C03's subject)
+        key = rng.choice(['a2', 'a1', 'a3'])
+        sc['items'] = [key, rng.choice(['COUNT(*)', 'MAX(a1)', 'MIN(a2)', 'COUNT(1)'])]
+        sc['group_by'] = key
+        sc['unnest_at'] = None
+        sc['distinct'] = None
+        sc['order'] = None
+        if sc['producer']['type'] != 'finite':
+            sc['producer'] = {'type': 'finite', 'rows': gen_rows(rng, rng.choice([0, 1, 3, 5, 8]))}
+        if sc['bound'] is None:
+            sc['bound'] = {'form': rng.choice(['top', 'limit']), 'n': rng.choice([0, 1, 2, 3])}
     return sc
 
 
@@ -326,19 +340,28 @@ def check_engine(sc, eng, counters, res, digest_parts):
 
     if producer['type'] == 'finite':
         bump(counters, 'producer.finite')
-        raw = do(build_query(sc, order=False, distinct=False, bound=False), producer)
-        if raw['outcome'] != ['ok']:
-            bump(counters, 'discard.raw_query_fails')
-            return 'discard'
-        full = do(build_query(sc, bound=False), producer)
-        try:
-            expected = model(sc, raw['rows'])
-        except TypeError:
-            bump(counters, 'discard.mixed_type_sort_key')
-            return 'discard'
-        bump(counters, 'pure_clause_cases')
-        if full['outcome'] != ['ok'] or full['rows'] != expected:
-            return ('order_model', {'got': full['rows'], 'outcome': full['outcome'], 'expected': expected, 'raw': raw['rows']})
+        if sc.get('group_by'):
+            bump(counters, 'shape.aggregate_with_bound')
+            full = do(build_query(sc, bound=False), producer)
+            if full['outcome'] != ['ok']:
+                bump(counters, 'discard.raw_query_fails')
+                return 'discard'
+            raw = {'rows': full['rows'], 'pulls': full['pulls']}
+            expected = full['rows']
+        else:
+            raw = do(build_query(sc, order=False, distinct=False, bound=False), producer)
+            if raw['outcome'] != ['ok']:
+                bump(counters, 'discard.raw_query_fails')
+                return 'discard'
+            full = do(build_query(sc, bound=False), producer)
+            try:
+                expected = model(sc, raw['rows'])
+            except TypeError:
+                bump(counters, 'discard.mixed_type_sort_key')
+                return 'discard'
+            bump(counters, 'pure_clause_cases')
+            if full['outcome'] != ['ok'] or full['rows'] != expected:
+                return ('order_model', {'got': full['rows'], 'outcome': full['outcome'], 'expected': expected, 'raw': raw['rows']})
         if sc.get('order') or sc.get('distinct'):
             if len(expected) < len(raw['rows']) or (sc.get('order') and len(set(core.canon([r[c] for c in sc['order']['cols']]) for r in raw['rows'])) < len(raw['rows'])):
                 nontrivial = True
